@@ -1,6 +1,7 @@
 import PMV.Sexp
 import PMV.Driver.Cli
 import PMV.Driver.Printer
+import PMV.Driver.Fold
 open PMV
 
 def dispatch (cmd : String) (args : List Sexp) : Option String :=
@@ -12,6 +13,8 @@ def dispatch (cmd : String) (args : List Sexp) : Option String :=
   | "cli.violations" => Driver.Cli.violations args
   | "unparse" => Driver.Printer.unparse args
   | "unparse.expr" => Driver.Printer.unparseExpr args
+  | "fold" => Driver.Fold.fold args
+  | "pyint.eval" => Driver.Fold.pyintEval args
   | "gram.check" => Driver.Printer.gramCheck args
   | "paren.violations" => Driver.Printer.parenViolations args
   | "spacing.violations" => Driver.Printer.spacingViolations args
